@@ -314,6 +314,8 @@ class IcapConn:
         self.continued = False
         self.x = None          # current transaction record (dict)
         self.n_xact = 0
+        self.out = b''         # bytes accepted for sending but not yet taken by the socket (back-pressure)
+        self.close_after = None  # None | 'fin' | 'rst': close once `out` has drained
 
 
 class IcapServer:
@@ -371,8 +373,14 @@ class IcapServer:
                 ic.raw += ic.c.inbuf
                 ic.c.inbuf = b''
                 progressed = True
+            if self._flush(ic):
+                progressed = True
+            if ic.c.closed:
+                continue
             if self._drive(ic):
                 progressed = True
+            if ic.c.closed:
+                continue
             if ic.c.eof and not ic.c.closed:
                 if ic.x is not None:
                     ic.x['events'].append('peer-closed')
@@ -388,9 +396,32 @@ class IcapServer:
         return x
 
     def _send(self, ic, data, what):
-        ic.c.send(data)
+        ic.out += data
         ic.x['sent'] += data
         ic.x['events'].append(what)
+        self._flush(ic)
+
+    def _close(self, ic, how='fin'):
+        """Close after everything queued has been handed to the socket."""
+        ic.close_after = how
+        self._flush(ic)
+
+    def _flush(self, ic):
+        moved = False
+        if ic.out and not ic.c.closed:
+            n = ic.c.send(ic.out)
+            if n:
+                ic.out = ic.out[n:]
+                moved = True
+            if ic.c.reset:
+                ic.out = b''
+        if not ic.out and ic.close_after and not ic.c.closed:
+            if ic.close_after == 'rst':
+                ic.c.rst()
+            else:
+                ic.c.close()
+            moved = True
+        return moved
 
     def _drive(self, ic):
         acted = False
@@ -416,9 +447,9 @@ class IcapServer:
             self._behave(ic, x, req)
             if len(x['events']) != before:
                 acted = True
-            if ic.c.closed:
+            if ic.c.closed or ic.close_after:
                 break
-            finished = x['final'] and (req.stage == 'done' or (req.stage == 'paused' and not ic.continued))
+            finished = x['final'] and not ic.out and (req.stage == 'done' or (req.stage == 'paused' and not ic.continued))
             if not finished:
                 break
             ic.start += req.consumed
@@ -466,7 +497,7 @@ class IcapServer:
         elif kind == 'garbage':
             self._send(ic, beh['bytes'], 'garbage')
             if beh.get('then') == 'close':
-                ic.c.close()
+                self._close(ic)
         elif kind == '200':
             parts = resp_200_parts(beh['section'], beh['http_head'], beh.get('http_body'), beh.get('chunks'))
             full = parts[0] + parts[1] + b''.join(parts[2]) + parts[3]
@@ -476,10 +507,7 @@ class IcapServer:
             else:
                 off = cut_offset(parts, cut, beh.get('http_body'))
                 self._send(ic, full[:off], '200-cut-%s@%d/%d' % (cut, off, len(full)))
-                if beh.get('cut_how', 'fin') == 'rst':
-                    ic.c.rst()
-                else:
-                    ic.c.close()
+                self._close(ic, beh.get('cut_how', 'fin'))
         else:
             raise ValueError('unknown behaviour kind %r' % (kind,))
 
